@@ -3,7 +3,7 @@
 # Re-verifies a sub-agent's seeded change in its scratch worktree and stores it under seeded/<seed-id>/
 set -u
 P=$1; N=$2; ID=$3; NEEDS=$4
-WT=/tmp/wt/$P
+WT=${WTROOT:-/tmp/wt}/$P
 HERE="$(cd "$(dirname "$0")/.." && pwd)"
 cd $WT || exit 2
 git checkout -q -- src || exit 2
